@@ -406,10 +406,21 @@ func (g *msgGen) opD() {
 
 func (g *msgGen) opP() {
 	q := pick(g.r, g.names)
-	if g.safe {
+	if g.safe && g.r.Chance(1, 2) {
 		g.opT()
 	}
 	g.emit("P:" + hexs(q))
+	// PurgeQueue cancels the queue's pending adds and drops its pending updates
+	for k := range g.pA {
+		if k.q == q {
+			delete(g.pA, k)
+		}
+	}
+	for k := range g.pU {
+		if k.q == q {
+			delete(g.pU, k)
+		}
+	}
 	if g.engine != "bunt" { // the bunt wrapper does not delete anything
 		for k := range g.eng {
 			if k.q == q {
@@ -421,6 +432,13 @@ func (g *msgGen) opP() {
 
 func (g *msgGen) opT() {
 	g.emit("T")
+	g.flush(g.pA, g.pU, g.pD)
+	g.resetPending()
+}
+
+// opX is a graceful stop (Close persists once more) followed by a restart.
+func (g *msgGen) opX() {
+	g.emit("X")
 	g.flush(g.pA, g.pU, g.pD)
 	g.resetPending()
 }
@@ -523,7 +541,7 @@ func genMsgCase(r *hx.Rng, engineKind string, safe bool, iso bool, length int) (
 		}
 	}
 	for g.count < length {
-		switch weighted(r, []int{30, 8, 15, 5, 12, 6, 5, 19}) {
+		switch weighted(r, []int{30, 8, 15, 6, 12, 6, 5, 19, 3}) {
 		case 0:
 			g.opA()
 		case 1:
@@ -538,6 +556,8 @@ func genMsgCase(r *hx.Rng, engineKind string, safe bool, iso bool, length int) (
 			g.opSplit()
 		case 6:
 			g.opK()
+		case 8:
+			g.opX()
 		default:
 			g.opQuery()
 		}
